@@ -3,7 +3,7 @@ from engines import KModelOb, MirOb
 import common
 from common import *
 from extract import Source
-import C12, C10
+import C12, C10, C03
 
 ASSUMPTIONS = [
     'claimed for the DECISION and BOOKKEEPING step of a fork switch: commit_prove_state (real text, ordered ghost log of every effect) and '
@@ -67,8 +67,10 @@ def obligations():
     o44 = c10['O10.guard-proof-handler']; o44.ob_id = 'O4.4-long-fork-abort-gated'
     o46 = c12['O12.2-new-child']; o46.ob_id = 'O4.6-child-inherits-reorg'
     o46.desc = '[a child prove state still sits on the fork switch of its parent: a peer whose state is copied from it drops its stale filter-hash cache too] ' + o46.desc
+    o47 = C03.filter_block_quick('O4.7-index-writer-overwrites-mapping')
+    o47.desc = '[after a fork switch the block indexed at a height replaces whatever the abandoned branch left there: header row and number -> hash mapping are rewritten even if that header is already stored] ' + o47.desc
     return [
-        o41, o46,
+        o41, o46, o47,
         KModelOb('O4.3-request-rebase', 'bprc', 'request_content', 'build_prove_request_content(_from_genesis) (real text): Some iff start strictly below last in number and not '
                  'above it in difficulty; <= last-N missing blocks => no samples, boundary = start difficulty, start re-based only onto the first remembered '
                  'header strictly below the start and within last-N of the tip; otherwise the sampled boundary / difficulties with the proven start', ex_bprc,
